@@ -17,6 +17,8 @@ def run(ctx):
     # over every sequence of <= A atoms out of 16 (valid / overlong / best-fit / unmapped / NUL / invalid / short %u forms, ...)
     A = 2 if ctx.quick else 3
     shards += [["dec", A, i, 8] for i in range(8)]
+    # inputs that cross the library's container sizes (more than 32 pairs, fields arriving in more than 16 pieces): whole, bytewise, 3 and 17 bytes per call
+    shards += [["long"]]
     total, distinct, bad, files = vlib.pattern_f(ctx, "san", "fn_urlenc", shards, "UrlEncodedRows", "UrlEncodedRows.cfg")
     ctx.violations += bad
     expected = sum(7 ** n for n in range(L + 1)) * 6 + sum(16 ** n for n in range(1, A + 1)) * 48
@@ -40,7 +42,7 @@ def run(ctx):
                 "strings of length <= %d over {a = & %% + 1 NUL} (route direct; body/query for length <= %d) plus seeded random "
                 "inputs over all bytes with 1-byte and random multi-cut chunkings; plus rows kind=dec: 'k=' + every sequence of <= %d atoms out of 16 "
                 "percent/%%u/NUL forms under all 48 decoder configurations (mode x plus x u_encoding_decode x nul_encoded_terminates x "
-                "nul_raw_terminates), whole and two cut sets; distinct = distinct (in,mode,plus,via) as counted by TLC" % (L, L - 1, A),
+                "nul_raw_terminates), whole and two cut sets; plus rows kind=long: six inputs that cross the container sizes (40 pairs, 60-byte fields, 35 empty pieces, 34 empty names, 34 names without value) delivered whole / bytewise / by 3 / by 17; distinct = distinct (in,mode,plus,via) as counted by TLC" % (L, L - 1, A),
         "samples": samples, "exhaustive": True,
         "exhaustive_space": "all strings <= %d over 7 symbols x every single cut x 3 modes x 2 plus settings (direct route)" % L,
         "model": "UrlEncoded.tla: streaming model vs RefPairs, every chunking, MaxLen %d" % (4 if ctx.quick else 6),
